@@ -38,6 +38,9 @@ pub enum RuntimeErrorKind {
     IndexOutOfBounds,
     /// Type mismatch error that can't be caught in semantic analysis
     TypeMismatch,
+    /// A variable was used before its `make` statement ran. The checker resolves names
+    /// lexically, but a function may be called above the declaration it captures.
+    UseBeforeDeclaration,
     InvalidIndex,
     ProcessUnsupported,
     ProcessDenied,
@@ -56,6 +59,7 @@ impl AsStr for RuntimeErrorKind {
             RuntimeErrorKind::StackOverflow => "Stack overflow",
             RuntimeErrorKind::IndexOutOfBounds => "Index out of bounds",
             RuntimeErrorKind::TypeMismatch => "Type mismatch",
+            RuntimeErrorKind::UseBeforeDeclaration => "Variable used before declaration",
             RuntimeErrorKind::InvalidIndex => "Invalid index",
             RuntimeErrorKind::ProcessUnsupported => "Unsupported process execution",
             RuntimeErrorKind::ProcessDenied => "Process execution denied",
@@ -104,6 +108,10 @@ impl RuntimeError {
     /// operator, condition, index or built-in that does not accept its runtime type.
     fn type_mismatch(span: Span) -> Self {
         Self::new(RuntimeErrorKind::TypeMismatch, span)
+    }
+
+    fn use_before_declaration(span: Span) -> Self {
+        Self::new(RuntimeErrorKind::UseBeforeDeclaration, span)
     }
 }
 
@@ -411,6 +419,10 @@ impl<'a> Runtime<'a> {
                             err.ty
                         )),
                     }],
+                    RuntimeErrorKind::UseBeforeDeclaration => vec![Label {
+                        span: err.span,
+                        message: ArenaCow::Borrowed("Dis variable never dey declared by dis time"),
+                    }],
                     RuntimeErrorKind::InvalidIndex => vec![Label {
                         span: err.span,
                         message: ArenaCow::Borrowed("Index value no be whole number"),
@@ -461,12 +473,15 @@ impl<'a> Runtime<'a> {
                 }
                 Ok(ExecFlow::Continue)
             }
-            Stmt::AssignExisting { var, expr, .. } => {
+            Stmt::AssignExisting { var, var_span, expr, .. } => {
                 let val = self.eval_expr(expr)?;
-                if let Some(local) = self.bound_stmt_local(stmt) {
-                    self.assign_bound_local(local, val);
+                let assigned = if let Some(local) = self.bound_stmt_local(stmt) {
+                    self.assign_bound_local(local, val)
                 } else {
-                    self.assign_var(var, val);
+                    self.assign_var(var, val)
+                };
+                if !assigned {
+                    return Err(RuntimeError::use_before_declaration(*var_span));
                 }
                 Ok(ExecFlow::Continue)
             }
@@ -630,7 +645,7 @@ impl<'a> Runtime<'a> {
             Expr::Number(n, ..) => Ok(Value::Number(
                 n.parse::<f64>().expect("Scanner should guarantee valid number format"),
             )),
-            Expr::String { parts, .. } => Ok(self.eval_string_expr(expr, parts)),
+            Expr::String { parts, .. } => self.eval_string_expr(expr, parts),
             Expr::Bool(b, ..) => Ok(Value::Bool(*b)),
             Expr::Null(..) => Ok(Value::Null),
             Expr::Var(v, ..) => {
@@ -640,7 +655,7 @@ impl<'a> Runtime<'a> {
                 } else {
                     self.lookup_var(v, frame)
                 }
-                .expect("Semantic analysis should guarantee all variables are declared");
+                .ok_or_else(|| RuntimeError::use_before_declaration(expr.span()))?;
                 Ok(val)
             }
             Expr::Binary { op, lhs, rhs, span } => match op {
@@ -1292,7 +1307,7 @@ impl<'a> Runtime<'a> {
                 } else {
                     self.lookup_var_mut(name)
                 }
-                .expect("Semantic analysis guarantees variable exists");
+                .ok_or_else(|| RuntimeError::use_before_declaration(span))?;
                 match var {
                     Value::Array(arr) => Ok(arr),
                     _ => Err(RuntimeError::new_with_extras(
@@ -1317,7 +1332,7 @@ impl<'a> Runtime<'a> {
                 } else {
                     self.lookup_var_mut(base_var)
                 }
-                .expect("Semantic analysis guarantees variable exists");
+                .ok_or_else(|| RuntimeError::use_before_declaration(span))?;
 
                 for (idx, index_span) in &evaluated_indices {
                     match slot {
@@ -1367,7 +1382,7 @@ impl<'a> Runtime<'a> {
                 } else {
                     self.lookup_var_mut(name)
                 }
-                .expect("Semantic analysis guarantees variable exists");
+                .ok_or_else(|| RuntimeError::use_before_declaration(span))?;
                 match var {
                     Value::Host(host) => match host.get_mut() {
                         HostValue::ProcessCommand(command) => Ok(command),
@@ -1400,7 +1415,7 @@ impl<'a> Runtime<'a> {
                 } else {
                     self.lookup_var_mut(base_var)
                 }
-                .expect("Semantic analysis guarantees variable exists");
+                .ok_or_else(|| RuntimeError::use_before_declaration(span))?;
 
                 for (idx, index_span) in &evaluated_indices {
                     match slot {
@@ -1493,9 +1508,13 @@ impl<'a> Runtime<'a> {
         }
     }
 
-    fn eval_string_expr(&mut self, expr: ExprRef<'a>, parts: &StringParts<'a>) -> Value<'a> {
+    fn eval_string_expr(
+        &mut self,
+        expr: ExprRef<'a>,
+        parts: &StringParts<'a>,
+    ) -> Result<Value<'a>, RuntimeError> {
         match parts {
-            StringParts::Static(content) => Value::Str(ArenaCow::borrowed(content)),
+            StringParts::Static(content) => Ok(Value::Str(ArenaCow::borrowed(content))),
             StringParts::Interpolated(segments) => {
                 let mut result = ArenaString::with_capacity_in(segments.len(), self.frame);
                 for (segment_idx, segment) in segments.iter().enumerate() {
@@ -1511,12 +1530,12 @@ impl<'a> Runtime<'a> {
                             } else {
                                 self.lookup_var_ref(var)
                             }
-                            .expect("Semantic analysis should guarantee variable exists");
+                            .ok_or_else(|| RuntimeError::use_before_declaration(expr.span()))?;
                             write!(result, "{value}").unwrap();
                         }
                     }
                 }
-                Value::Str(ArenaCow::owned(result))
+                Ok(Value::Str(ArenaCow::owned(result)))
             }
         }
     }
@@ -1545,7 +1564,8 @@ impl<'a> Runtime<'a> {
         }
     }
 
-    fn assign_bound_local(&mut self, local: LocalId, val: Value<'a>) {
+    /// Returns false when the variable has not been declared yet at run time.
+    fn assign_bound_local(&mut self, local: LocalId, val: Value<'a>) -> bool {
         let has_frame = self.has_frame_arena();
         let pool = &self.pool;
         let frame = self.frame;
@@ -1553,13 +1573,14 @@ impl<'a> Runtime<'a> {
         for scope in self.env.iter_mut().rev() {
             if let Some(slot) = scope.iter_mut().rev().find(|slot| slot.id == Some(local)) {
                 Self::overwrite_slot(&mut slot.value, val, has_frame, pool, frame);
-                return;
+                return true;
             }
         }
-        unreachable!("Semantic analysis guarantees variable exists");
+        false
     }
 
-    fn assign_var(&mut self, name: &'a str, val: Value<'a>) {
+    /// Returns false when the variable has not been declared yet at run time.
+    fn assign_var(&mut self, name: &'a str, val: Value<'a>) -> bool {
         let has_frame = self.has_frame_arena();
         let pool = &self.pool;
         let frame = self.frame;
@@ -1567,10 +1588,10 @@ impl<'a> Runtime<'a> {
         for scope in self.env.iter_mut().rev() {
             if let Some(slot) = scope.iter_mut().rev().find(|slot| slot.name == name) {
                 Self::overwrite_slot(&mut slot.value, val, has_frame, pool, frame);
-                return;
+                return true;
             }
         }
-        unreachable!("Semantic analysis guarantees variable exists");
+        false
     }
 
     /// Moves a function return value across a frame reset boundary.
@@ -1656,7 +1677,7 @@ impl<'a> Runtime<'a> {
         } else {
             self.lookup_var_mut(base_var)
         }
-        .expect("Semantic analysis guarantees variable exists");
+        .ok_or_else(|| RuntimeError::use_before_declaration(span))?;
 
         for (i, (idx, index_span)) in evaluated_indices.iter().enumerate() {
             let is_last = i + 1 == evaluated_indices.len();
